@@ -240,8 +240,12 @@ where
 {
     match child {
         xml_dom::XmlNode::Attribute(v) => {
+            // The value is copied piece by piece (text and references), like element content:
+            // written back as one literal, "a&lt;b" would not be an attribute value any more.
             let mut n = doc.create_attribute(qualified_name(&v.as_node())?.as_str())?;
-            n.borrow_mut().set_value(v.value()?.as_str())?;
+            for piece in v.child_nodes().iter() {
+                append_child_to_tree(n.clone(), piece, doc)?;
+            }
 
             if let Some(mut attr) = node.attributes() {
                 attr.borrow_mut().set_named_item(n)?;
